@@ -121,8 +121,8 @@ func show(k *keyid.KeyID) string {
 
 func checkDecode(r *ev.Run, c *ev.Case, text, shape string) {
 	r.Eval(1)
-	d0 := decodeDigest(text) // the reference result, taken before anything below touches what the decoder hands out
-	defer func() { ring.Add(r, c, func() string { return decodeDigest(text) }, d0, text) }()
+	d0 := ev.Digest(func() string { return decodeDigest(text) }) // the reference result, taken before anything below touches what the decoder hands out
+	defer func() { ring.Add(r, c, func() string { return ev.Digest(func() string { return decodeDigest(text) }) }, d0, text) }()
 	var k *keyid.KeyID
 	var err error
 	if r.Guard(c, "Unmarshal", caseRec{Text: text, What: shape}, func() { k, err = keyid.Unmarshal(text) }) {
